@@ -5,6 +5,8 @@ package pub
 // C09: every lock taken is released exactly once; none is retaken or leaked;
 // every Database read/write other than id generation happens under a lock.
 
+import "net/url"
+
 func vfC09Inbox(typ string) {
 	w := vfNewWorld()
 	w.checkLocks = true
@@ -18,6 +20,7 @@ func vfC09Inbox(typ string) {
 	nobj := vfParam("nobj", 1)
 	a := vfActivity(typ, 1, nobj, 2, "Note")
 	a.tree["to"] = vfIRI("act.to")
+	vfC09Targets(a, typ)
 	actor := w.actor(false, true)
 	rw := vfNewWriter(w)
 	req := vfRequest("POST", vfCT, "", w.inboxIRI, vfMarshal(a.tree))
@@ -25,6 +28,101 @@ func vfC09Inbox(typ string) {
 	vfAssert(len(w.held) == 0, "lock-leaked-at-return")
 	vfCover("end")
 }
+
+// Add/Remove: 1..ntargets targets, each an IRI or an embedded Collection, ids free to alias
+// (the same collection named twice)
+func vfC09Targets(a *vfAct, typ string) {
+	if typ != "Add" && typ != "Remove" {
+		return
+	}
+	nt := 1 + vfChoose("ntargets", vfParam("ntargets", 2))
+	var l []interface{}
+	a.targets = nil
+	for i := 0; i < nt; i++ {
+		t := vfIRI("act.target")
+		a.targets = append(a.targets, t)
+		if vfChoose("target.form", 2) == 0 {
+			l = append(l, t)
+		} else {
+			l = append(l, map[string]interface{}{"type": "Collection", "id": t})
+		}
+	}
+	a.tree["target"] = vfScalarOrList(l)
+	if nt >= 2 {
+		vfCover("two-targets")
+	}
+}
+
+// client POSTs through the whole outbox stack (Social callbacks, persistence, delivery)
+func vfC09Outbox(typ string) {
+	w := vfOutboxWorld()
+	w.checkLocks = true
+	w.faults = vfParam("faults", 1) > 0
+	w.remote = w.vfRemoteDefault
+	w.maxDeliver = 1
+	w.now = vfTime("now")
+	fed := vfChoose("federating", 2) == 1
+	var tree map[string]interface{}
+	if typ == "Note" {
+		tree = vfDoc("Note", "content", "hello", "to", vfIRI("note.to"))
+	} else {
+		nobj := vfParam("nobj", 1)
+		a := vfActivity(typ, 0, nobj, 2, "Note")
+		a.tree["actor"] = w.actorIRI.String()
+		a.tree["to"] = vfIRI("act.to")
+		vfC09Targets(a, typ)
+		tree = a.tree
+	}
+	actor := w.actor(true, fed)
+	rw := vfNewWriter(w)
+	req := vfRequest("POST", vfCT, "", w.outboxIRI, vfMarshal(tree))
+	actor.PostOutbox(vfCtx(), rw, req)
+	vfAssert(len(w.held) == 0, "lock-leaked-at-return")
+	vfCover("end")
+}
+
+func VfC09_Outbox_Note()   { vfC09Outbox("Note") }
+func VfC09_Outbox_Create() { vfC09Outbox("Create") }
+func VfC09_Outbox_Update() { vfC09Outbox("Update") }
+func VfC09_Outbox_Delete() { vfC09Outbox("Delete") }
+func VfC09_Outbox_Follow() { vfC09Outbox("Follow") }
+func VfC09_Outbox_Add()    { vfC09Outbox("Add") }
+func VfC09_Outbox_Remove() { vfC09Outbox("Remove") }
+func VfC09_Outbox_Like()   { vfC09Outbox("Like") }
+func VfC09_Outbox_Undo()   { vfC09Outbox("Undo") }
+func VfC09_Outbox_Block()  { vfC09Outbox("Block") }
+
+// the three GET endpoints
+func vfC09Get(ep int) {
+	w := vfNewWorld()
+	w.checkLocks = true
+	w.faults = vfParam("faults", 1) > 0
+	w.defaultStore = true
+	w.now = vfTime("now")
+	rw := vfNewWriter(w)
+	u := w.inboxIRI
+	if ep == vfEPGetOutbox {
+		u = w.outboxIRI
+	}
+	req := vfRequest("GET", "", vfCT, u, nil)
+	switch ep {
+	case vfEPGetInbox:
+		w.getInboxVal = vfPage([]*url.URL{vfURL("page.item"), vfURL("page.item")})
+		w.actor(false, true).GetInbox(vfCtx(), rw, req)
+	case vfEPGetOutbox:
+		w.getOutboxVal = vfPage([]*url.URL{vfURL("page.item")})
+		w.actor(true, true).GetOutbox(vfCtx(), rw, req)
+	default:
+		h := NewActivityStreamsHandler(&vfDB{w: w}, &vfClock{w: w})
+		h(vfCtx(), rw, vfRequest("GET", "", vfCT, vfURL("served"), nil))
+	}
+	vfAssert(len(w.held) == 0, "lock-leaked-at-return")
+	vfCover("end")
+}
+
+func VfC09_Get_Inbox()   { vfC09Get(vfEPGetInbox) }
+func VfC09_Get_Outbox()  { vfC09Get(vfEPGetOutbox) }
+func VfC09_Get_Handler() { vfC09Get(vfEPHandler) }
 
 func VfC09_Inbox_Create()   { vfC09Inbox("Create") }
 func VfC09_Inbox_Update()   { vfC09Inbox("Update") }
